@@ -199,6 +199,13 @@ def rt_inputs(rng):
         yield b'7' * n
     for n in (2335, 2336):
         yield b'A' * n
+    # two- and three-regime inputs: a run that suits one mode followed by characters it cannot carry
+    regimes = [b'ABCDEFGHIJKL', b'abcdefghijkl', b'012345678901', b'\xab\xe4\xf6\xfc\xe9\xe0\xe1\xbb\xab\xe4\xf6\xfc', b'AB*CD>EF\rGH ', b'HEADER: A=1;', b'[]^_!"#$%&()']
+    for i, a in enumerate(regimes):
+        for j, b2 in enumerate(regimes):
+            if i != j:
+                yield a + b2
+                yield a + b2[:5] + a[:6]
     for b in bodies:
         yield b
         for h in (H5, H6):
@@ -265,6 +272,12 @@ def _rt_batch(binary, lines, meta):
         ref = isoref.iso_decode(cw)
         if ref is None or ref[0] != data:
             return {'call': l, 'observed': r, 'expected': 'data codewords that the ISO/IEC 16022 reference decoder (lib/isoref.py) reads as the input; it reads %s' % (ref[0].hex() if ref else 'nothing (rejects the stream)')}
+        # only enabled modes are latched into (C13)
+        if ms != 'all':
+            enabled = set({'Base256': 'b256'}.get(m, m.lower()) for m in ms.split(','))
+            bad = sorted(isoref.LAST_MODES - enabled)
+            if bad:
+                return {'call': l, 'observed': r, 'expected': 'only the enabled modes %s; the data codewords latch into %s' % (ms, ', '.join(bad))}
         # macro / FNC1 shape (C16)
         H5, H6, T = isoref.HEAD05, isoref.HEAD06, isoref.TRAIL
         env = data.endswith(T) and (data.startswith(H5) or data.startswith(H6)) and len(data) >= 9
